@@ -22,7 +22,7 @@ RULE = ('2-4 contenders (threads sharing one Cache, threads with their own Cache
         'CLOCK_MONOTONIC stamps. evaluations = schedules and process runs judged; distinct_nontrivial = distinct '
         'schedules in which a contender was preempted while holding')
 DISTINCT = ('schedules_preempted_while_holding', 'process_runs')
-REQUIRED = ('schedules_lock', 'schedules_rlock', 'schedules_semaphore', 'schedules_barrier', 'critical_sections',
+REQUIRED = ('critical_sections_that_failed', 'with_statement_sections', 'schedules_lock', 'schedules_rlock', 'schedules_semaphore', 'schedules_barrier', 'critical_sections',
             'contended_acquires', 'nested_acquires', 'refused_releases', 'process_runs_done', 'fanout_schedules',
             'fork_runs_done', 'waiting_contenders_failed_by_injection', 'contenders_with_pickled_handles')
 ASSUMPTIONS = ('witness intervals lie strictly inside the claimed hold period, so an overlap is a proof and clock '
@@ -62,6 +62,9 @@ def schedule(dc, sc, res, rng, label, kind):
     budget = [rng.randrange(1, 4)]
 
     class InjectedFault(Exception):
+        pass
+
+    class SectionFailed(Exception):
         pass
 
     def fault_hook(client, gate_label):
@@ -123,10 +126,14 @@ def schedule(dc, sc, res, rng, label, kind):
             me = sch._me()
             me.holding = False
             for rnd in range(rng.randrange(2, 5)):
+                # a critical section may fail: what was taken for it is given back all the same
+                fails = rng.random() < 0.2
                 if kind == 'barrier':
                     @dc.barrier(caches[ci], factory, name=lock_key)
                     def work():
                         critical(ci)
+                        if fails:
+                            raise SectionFailed()
                     me.phase = 'acquire'
                     try:
                         work()
@@ -134,9 +141,27 @@ def schedule(dc, sc, res, rng, label, kind):
                         if me.phase != 'acquire':
                             raise
                         res.count('waiting_contenders_failed_by_injection')
+                    except SectionFailed:
+                        res.count('critical_sections_that_failed')
                     me.phase = 'idle'
                     continue
                 depth = rng.randrange(1, 4) if kind == 'rlock' else 1
+                if rng.random() < 0.4:
+                    # the `with` form
+                    import contextlib
+                    try:
+                        with contextlib.ExitStack() as stack:
+                            for _ in range(depth):
+                                stack.enter_context(lock)
+                            if depth > 1:
+                                res.count('nested_acquires')
+                            critical(ci)
+                            if fails:
+                                raise SectionFailed()
+                    except SectionFailed:
+                        res.count('critical_sections_that_failed')
+                    res.count('with_statement_sections')
+                    continue
                 for _ in range(depth):
                     lock.acquire()
                 if depth > 1:
